@@ -26,7 +26,7 @@ ASSUMPTIONS = [
     "the host pattern language is Python's re; selection order and whole-string anchoring are what is checked",
 ]
 
-PREFIXES = ["", "/a", "/ab", "/a/b", "/api", "/apix", "/é", "/a.b", "/A", "/Ã©", "/a//b", "/a/./b", "/a/../b", "/."]  # (a prefix is text: nothing in it is resolved)
+PREFIXES = ["", "/a", "/ab", "/a/b", "/api", "/apix", "/é", "/a.b", "/A", "/Ã©", "/a//b", "/a/./b", "/a/../b", "/.", "/e\u0301"]  # (a prefix is text: nothing in it is resolved)
 SEGS = ["a", "ab", "b", "api", "apix", ""]
 
 
@@ -38,7 +38,7 @@ def all_paths():
             for lead in ("/", ""):
                 for trail in ("/", ""):
                     out.add(lead + core + trail)
-    out |= {"/Ã©", "/Ã©/x", "/é", "/é/x", "/a.b", "/axb", "/A", "/a/b/c", "/apix/a", "/api/x/y"}
+    out |= {"/e\u0301", "/e\u0301/x", "/Ã©", "/Ã©/x", "/é", "/é/x", "/a.b", "/axb", "/A", "/a/b/c", "/apix/a", "/api/x/y"}
     # a prefix followed by a line break or another control character (sent as %0A ...): not the prefix, not below it
     out |= {p + c + t for p in ("/a", "/api", "/a/b", "/ab") for c in ("\n", "\r", "\r\n", "\x00", "\t", " ", "\x0b", "\u2028") for t in ("", "/x")}
     out |= {"\n", "/\n", "*", "api/x"}
@@ -116,6 +116,7 @@ def build_mount_apps(table, shared=False):
     def wrec(ids):
         def app(environ, start_response):
             hit["leaf"] = (ids, drivers.wsgi_text(environ.get("SCRIPT_NAME", "")), drivers.wsgi_text(environ.get("PATH_INFO", "")))
+            hit["raw"] = environ.get("SCRIPT_NAME", "") + environ.get("PATH_INFO", "")  # the native strings as they are: bytes are conserved, not only text
             start_response("200 OK", [])
             return [b"leaf"]
         return app
@@ -141,8 +142,10 @@ def run_mount(ctx, table, root, path, apps=None):
         hit.clear()
         app = apps[iface]
         if iface == "wsgi":
-            env = drivers.to_environ(drivers.Req(path=pb, root=root.encode("utf-8")))
+            # the root path "/caf\xe9" is handed over by a server whose client sent the é as one Latin-1 byte (not UTF-8): bytes are bytes
+            env = drivers.to_environ(drivers.Req(path=pb, root=root.encode("latin-1" if root == "/caf\xe9" else "utf-8")))
             root_seen, path_seen = drivers.wsgi_text(env["SCRIPT_NAME"]), drivers.wsgi_text(env["PATH_INFO"])
+            raw_before = env["SCRIPT_NAME"] + env["PATH_INFO"]
             before = snap(env, ("SCRIPT_NAME", "PATH_INFO"))
             res = drivers.run_wsgi(app, env)
             after_root, after_path = drivers.wsgi_text(env.get("SCRIPT_NAME", "")), drivers.wsgi_text(env.get("PATH_INFO", ""))
@@ -179,7 +182,9 @@ def run_mount(ctx, table, root, path, apps=None):
                 ctx.violation("wrong-entry-selected", case, f"model {ids}, real {gids}")
                 continue
             ctx.mon("root+path-conserved")
-            if groot + gpath != root_seen + path_seen:
+            if iface == "wsgi" and hit.get("raw") != raw_before:
+                ctx.violation("root+path-not-conserved|bytes-re-encoded", case, f"entry {raw_before!r}; leaf {hit.get('raw')!r}")
+            elif groot + gpath != root_seen + path_seen:
                 ctx.violation("root+path-not-conserved", case, f"entry {root_seen!r}+{path_seen!r}; leaf {groot!r}+{gpath!r}")
             elif gpath != epath or groot != eroot:
                 ctx.violation("leaf-path-or-root-wrong", case, f"model root={eroot!r} path={epath!r}; real root={groot!r} path={gpath!r}")
@@ -308,7 +313,7 @@ def has_prefix_pair(table):
 
 def run(ctx):
     rng = ctx.rng("c09")
-    roots = ["", "/root", "/r/é", "/site/", "/"]  # (a root path with a trailing slash is unusual, but it is the server's to choose)
+    roots = ["", "/root", "/r/é", "/site/", "/", "/caf\xe9"]  # (a root path with a trailing slash is unusual, but it is the server's to choose)
     if ctx.shard == 0:
         # hand-picked regression tables
         for table, root, path in [([("/a", None), ("", None)], "", "/ab"), ([("/a", None)], "/root", "/a"),
@@ -328,6 +333,8 @@ def run(ctx):
         first = [p for p, _ in table if p]
         for path in paths:
             root = rng.choice(roots + ([first[0]] if first else []))  # also a root path equal to one of the table's own prefixes
+            if root == "/caf\xe9" and not (repr(table).isascii() and path.isascii()):
+                root = "/root"  # (bytes of two encodings in one root path + path cannot be told apart afterwards)
             nt = run_mount(ctx, table, root, path, apps)
             ctx.case((repr(table), root, path) if (nt or ntriv) else None)
         if all(ord(c) < 128 for c in repr(table).replace("\\x", "~")) and "é" not in repr(table):
